@@ -409,6 +409,8 @@ type FuncContract struct {
 	NoInline  bool
 	Fresh     []int // result indexes that are fresh allocations
 	Decreases *Clause
+	AllocBound *Clause // allocations may also be as large as this expression (data the caller handed in)
+	UnboundedAlloc bool // (specs) the function allocates memory proportional to its input (io.ReadAll, os.ReadFile, ...)
 	NoGlobals bool   // the function must not read mutable package-level variables (state shared between instances)
 	LastCall  string // higher-order summary: the function's outcome is that of the last call of this func-typed parameter
 	Notes     []string
@@ -458,6 +460,7 @@ type Contracts struct {
 	Types  map[string]*TypeContract
 	Errors []string
 	Files  []string
+	Dead   map[string]bool // "<funcid> returnK": returns declared unreachable (proved instead of covered)
 }
 
 func NewContracts() *Contracts {
@@ -482,7 +485,7 @@ func (cs *Contracts) ParseContractFile(path string, pkgName string, isSpec bool)
 		line int
 	}
 	var lines []lline
-	heads := []string{"func ", "type ", "spec ", "axiom ", "lemma ", "global ", "props ", "arith ", "requires", "ensures", "trusted_ensures", "assigns", "loop ", "pure", "trusted", "trustframe", "noglobals", "noinline", "fresh ", "note ", "assert", "invariant ", "invariant[", "guarded_by ", "immutable", "decreases ", "ghost ", "lastcall "}
+	heads := []string{"func ", "type ", "spec ", "dead ", "axiom ", "lemma ", "global ", "props ", "arith ", "requires", "ensures", "trusted_ensures", "assigns", "loop ", "pure", "trusted", "trustframe", "noglobals", "unbounded_alloc", "noinline", "fresh ", "note ", "assert", "invariant ", "invariant[", "guarded_by ", "immutable", "decreases ", "ghost ", "lastcall ", "allocbound "}
 	for i, raw := range strings.Split(string(data), "\n") {
 		s := strings.TrimSpace(raw)
 		if !strings.HasPrefix(s, "//@") {
@@ -587,6 +590,22 @@ func (cs *Contracts) ParseContractFile(path string, pkgName string, isSpec bool)
 				sf.Body = e
 			}
 			cs.Specs[sf.Name] = sf
+		case strings.HasPrefix(s, "dead "):
+			// dead <func> returnK : the K-th return of func is unreachable; proved, and exempt from the cover query
+			f := strings.Fields(s)
+			if len(f) != 3 {
+				cs.Errors = append(cs.Errors, src+": bad dead clause")
+				continue
+			}
+			id := f[1]
+			if pkgName != "" {
+				id = pkgName + "." + id
+			}
+			if cs.Dead == nil {
+				cs.Dead = map[string]bool{}
+			}
+			cs.Dead[id+" "+f[2]] = true
+			curF, curT = nil, nil
 		case strings.HasPrefix(s, "global "):
 			// global <name> invariant[Cxx] label: expr
 			f := strings.Fields(s)
@@ -653,6 +672,8 @@ func (cs *Contracts) ParseContractFile(path string, pkgName string, isSpec bool)
 			curF.Pure = true
 		case s == "trusted":
 			curF.Trusted = true
+		case s == "unbounded_alloc":
+			curF.UnboundedAlloc = true
 		case s == "noglobals":
 			curF.NoGlobals = true
 		case s == "trustframe":
@@ -675,6 +696,8 @@ func (cs *Contracts) ParseContractFile(path string, pkgName string, isSpec bool)
 					curF.Assigns = append(curF.Assigns, a)
 				}
 			}
+		case strings.HasPrefix(s, "allocbound "):
+			curF.AllocBound = mkClause("allocbound", "", strings.TrimSpace(s[11:]), src)
 		case strings.HasPrefix(s, "lastcall "):
 			curF.LastCall = strings.TrimSpace(s[9:])
 		case strings.HasPrefix(s, "ghost "):
